@@ -42,6 +42,8 @@ def gen(rng, tier):
             # its task group): serve() still has to *return*
             for ls in ("lingers", "yields"):
                 yield {"family": "lifespan-%s.idle" % ls, "backend": be, "kind": "idle_keepalive", "count": 1, "trigger": "callable", "rep": rep, "ls": ls}
+            # ... and one that never answers lifespan.shutdown: shutdown_timeout (and no other timeout of the configuration) ends the wait
+            yield {"family": "lifespan-stuck.idle", "backend": be, "kind": "idle_keepalive", "count": 1, "trigger": "callable", "rep": rep, "ls": "stuck"}
             # connections arriving while the trigger fires: each request is either answered in full or was never handed to an application
             for k in range(4 if tier == "quick" else 12):
                 yield {"family": "burst-across-trigger", "backend": be, "kind": "burst_across_trigger", "count": 16, "trigger": "callable", "rep": rep * 10 + k}
@@ -266,7 +268,9 @@ def run_one(case, tally):
                      ["send_stream", ("c15", 1), big, 65536, True]],
         },
     }
-    if case.get("ls"):
+    if case.get("ls") == "stuck":
+        apps["lifespan"] = apps["lifespan"][:3] + [["sleep", 30.0]]
+    elif case.get("ls"):
         apps["lifespan"] = apps["lifespan"] + ([["sleep", 0.15]] if case["ls"] == "lingers" else [["yield", 2]])
     cfg = {"graceful_timeout": GRACE if kind not in ("inflight_short", "upload_inflight", "pipelined_behind_inflight", "pipelined_second_inflight", "h2_two_inflight", "burst_across_trigger", "h2_fresh", "h2_reset_idle") else 3.0, "shutdown_timeout": SHUT, "keep_alive_timeout": 30.0}
     if case["trigger"] == "max_requests":
@@ -513,7 +517,12 @@ def run_one(case, tally):
         return findings, [None]
     tally.clause("bounded")
     if not seen.get("returned_at_horizon"):
-        if seen.get("returned_after_release"):
+        if case.get("ls") == "stuck":
+            # (no client has anything to do with it: the one idle connection was closed at the trigger)
+            findings.append({"clause": "bounded", "sig": "C15.unbounded/%s/lifespan-shutdown-unanswered" % be, "backend": be,
+                             "detail": "the lifespan application never answered lifespan.shutdown: serve() had not ended %.1f s after the trigger "
+                                       "(graceful_timeout %.1f + shutdown_timeout %.1f)" % (HORIZON, GRACE, SHUT)})
+        elif seen.get("returned_after_release"):
             findings.append({"clause": "bounded", "sig": "C15.unbounded/%s/%s" % (be, _mech(kind)), "backend": be,
                              "detail": "%d %s connection(s): serve() had not returned %.1f s after the trigger (graceful_timeout %.1f + shutdown_timeout %.1f) "
                                        "and returned only once the clients were released" % (case["count"], kind, HORIZON, GRACE, SHUT)})
